@@ -22,6 +22,8 @@ CONFIGS = {
                                                               'max_out': 3, 'max_notifications': 3}, 7),
     ('aperture n=3 min_size=2', {'kind': 'aperture', 'n': 3, 'min_size': 2, 'ops': ['D', 'C', 'Down', 'Up', 'Adv', 'Leave'],
                                  'max_out': 4, 'max_down': 1, 'advs': [1, 3], 'max_notifications': 1}, 6),
+    ('aperture n=3 min_size=1, the wall clock steps backwards (10 s / more than an hour)',
+     {'kind': 'aperture', 'n': 3, 'min_size': 1, 'ops': ['D', 'C', 'Adv', 'Back'], 'max_out': 3, 'advs': [1]}, 6),
     ('heap n=3, a message object dispatched again while its first dispatch is outstanding', {'kind': 'heap', 'n': 3, 'ops': ['D', 'C', 'R'],
                                                                                             'max_out': 4}, 7),
     ('aperture n=3 min_size=1, endpoints are named tuples', {'kind': 'aperture', 'n': 3, 'min_size': 1, 'tuple_endpoints': True,
